@@ -1,4 +1,5 @@
 import FH.Dwarf
+import FH.Pe
 /-!
 # Modules, the sorted module list, FDE lookup in the three presentations
 (`unwinder.rs`: `add_module`, `remove_module`, `find_module_for_address`,
@@ -26,6 +27,7 @@ inductive Pres where
 inductive UnwindData where
   | none
   | dwarf (pres : Pres) (fdes : List Fde)   -- `fdes` in section order
+  | pe (funcs : List PeFunc)                -- `.pdata` entries in table order
   deriving Repr, Inhabited
 
 structure Module where
